@@ -1,10 +1,18 @@
 use crate::ctx::Ctx;
 
 pub mod c01;
+pub mod c02;
+pub mod c03;
+pub mod c11;
+pub mod c13;
 
 pub fn run(ctx: &mut Ctx) -> bool {
     match ctx.id.as_str() {
         "C01" => c01::run(ctx),
+        "C02" => c02::run(ctx),
+        "C03" => c03::run(ctx),
+        "C11" => c11::run(ctx),
+        "C13" => c13::run(ctx),
         _ => return false,
     }
     true
